@@ -174,7 +174,7 @@ theorem serve_inv (D : Prop) (st : St) (r : Req)
     · intro p hp
       simp only [Except.ok.injEq] at hp
       subst hp
-      exact ⟨rfl, fun w hw => by simp [defaultResp] at hw⟩
+      exact ⟨rfl, fun w hw => by simp [defaultResp, Resp.nonce, nonceFromHeader] at hw⟩
   · rw [h]
     have hmono : ∀ v, v ∈ issuedOf st.log → v ∈ issuedOf (.rep p :: .req r :: st.log) :=
       fun v hv => mem_issuedOf_rep _ _ _ hv
@@ -1353,11 +1353,56 @@ example : defaultBackoff 3 .absent 500000000 = 4500000000 := by decide
 example : defaultBackoff 7 .absent 1000000 = 10000000000 := by decide
 example : backoffSeconds 3 .absent = 4 := by decide
 
+/-! ## a signed request always carries a (non-empty) nonce -/
+
+theorem nonce_nonempty (p : Resp) (v : String) (h : p.nonce = some v) : v ≠ "" := by
+  unfold Resp.nonce nonceFromHeader at h
+  cases hh : p.replayNonce with
+  | nil => simp [hh] at h
+  | cons x r =>
+    simp only [hh] at h
+    split at h
+    · simp at h
+    · rename_i hx
+      simp only [Option.some.injEq] at h
+      subst h
+      simpa using hx
+
+theorem issued_nonempty (l : List Ev) : ∀ v ∈ issuedOf l, v ≠ "" := by
+  induction l with
+  | nil => simp [issuedOf]
+  | cons e l ih =>
+    cases e with
+    | req r => simpa [issuedOf] using ih
+    | rep p =>
+      intro v hv
+      simp only [issuedOf] at hv
+      cases hn : p.nonce with
+      | none => rw [hn] at hv; exact ih v hv
+      | some w =>
+        rw [hn] at hv
+        simp only [List.mem_cons] at hv
+        rcases hv with rfl | hv
+        · exact nonce_nonempty p _ hn
+        · exact ih v hv
+
+/-- every signed request in a well-formed log carries a nonce that is not the empty string: the client
+    never sends the `noNonce` sentinel in a POST, whatever shape the Replay-Nonce headers had (absent,
+    present but empty, repeated) -/
+theorem used_nonempty (l : List Ev) (h : WF l) : ∀ v ∈ usedOf l, v ≠ "" :=
+  fun v hv => issued_nonempty l v (used_sub_issued l h v hv)
+
+/-- the model's POSTs always have a nonce field at all (by construction of `postStep`), and by
+    `nonce_from_server` + `used_nonempty` it is a non-empty server-issued value -/
+theorem signed_request_has_nonce (cfg : Cfg) (script : List Reply) (kid : Bool) (calls : List Call) :
+    ∀ v ∈ usedOf (runCalls cfg (initSt script kid) calls).1.log, v ≠ "" :=
+  used_nonempty _ (nonce_from_server cfg script kid calls)
+
 /-- non-vacuity of the `no_reuse` hypothesis and of `WF` -/
-example : (scriptNonces [.resp ⟨200, "", some "a"⟩, .fail, .resp ⟨400, "urn:x:badNonce", some "b"⟩]).Nodup := by decide
-example : WF [.req ⟨.post, "order", some "a", true⟩, .rep ⟨200, "", some "a"⟩, .req ⟨.get, "dir", none, false⟩] := by
-  simp [WF, issuedOf]
-example : ¬ WF [.req ⟨.post, "order", some "b", true⟩, .rep ⟨200, "", some "a"⟩] := by
-  simp [WF, issuedOf]
+example : (scriptNonces [.resp ⟨200, "", ["a"]⟩, .fail, .resp ⟨400, "urn:x:badNonce", ["b", "c"]⟩]).Nodup := by decide
+example : WF [.req ⟨.post, "order", some "a", true⟩, .rep ⟨200, "", ["a"]⟩, .req ⟨.get, "dir", none, false⟩] := by
+  simp [WF, issuedOf, Resp.nonce, nonceFromHeader]
+example : ¬ WF [.req ⟨.post, "order", some "b", true⟩, .rep ⟨200, "", ["a"]⟩] := by
+  simp [WF, issuedOf, Resp.nonce, nonceFromHeader]
 
 end XC.C50
